@@ -394,6 +394,10 @@ def load_glb(
     if chunk_type != _magic["json"]:
         raise ValueError("no initial JSON header!")
 
+    # a corrupt header can claim a chunk far larger than the file
+    # and `read` on a real file allocates the requested size up front
+    if chunk_length > _remaining(file_obj):
+        raise ValueError("JSON chunk is longer than the file!")
     # uint32 causes an error in read, so we convert to native int
     # for the length passed to read, for the JSON header
     json_data = file_obj.read(int(chunk_length))
@@ -432,6 +436,8 @@ def load_glb(
         # make sure we have the right data type
         if chunk_type != _magic["bin"]:
             raise ValueError("not binary GLTF!")
+        if chunk_length > _remaining(file_obj):
+            raise ValueError("chunk is longer than the file!")
         # read the chunk
         chunk_data = file_obj.read(int(chunk_length))
         if len(chunk_data) != chunk_length:
@@ -451,6 +457,18 @@ def load_glb(
     )
 
     return kwargs
+
+
+def _remaining(file_obj) -> int:
+    """
+    Number of bytes between the current position
+    of a file object and the end of the file.
+    """
+    current = file_obj.tell()
+    file_obj.seek(0, 2)
+    end = file_obj.tell()
+    file_obj.seek(current)
+    return end - current
 
 
 def _uri_to_bytes(uri: str, resolver: ResolverLike) -> bytes:
